@@ -65,6 +65,9 @@ def instances(tier):
     # an unencodable message among the held ones does not keep the others from going out
     for g in (4, 5):
         out.append({"kind": "held_unencodable", "gen": g})
+        # nine or ten messages (all the buffer holds) wait for the link, and a connection subscriber sends a request from inside
+        # the 'connected' notification (as the API objects do) before the held ones are flushed
+        out.append({"kind": "held_full_greeting", "gen": g})
     # every message class as first/second message (content check of the frame of *that* message)
     n = 18
     step = 3 if tier == "quick" else 1
@@ -90,6 +93,8 @@ def run(ctx, p):
         return _held_unencodable(ctx, p)
     if k == "long_stall":
         return _long_stall(ctx, p)
+    if k == "held_full_greeting":
+        return _held_full_greeting(ctx, p)
     return _sends(ctx, p)
 
 
@@ -119,6 +124,55 @@ def _long_stall(ctx, p):
         ctx.check(res.get("r") == "ok", "sends.accepted", detail=detail)
         ctx.check(bytes(wire) == bytes(exp) and len(rig.net.conns) == 1, "sends.wire", detail=detail)
         ctx.check(not rig.task_failures(), "sends.wire", detail="unhandled exception in a socket task")
+    for lab in ("counter.step", "counter.wrap", "sends.contiguous"):
+        ctx.reach(lab)
+
+
+def _held_full_greeting(ctx, p):
+    g = Gen(p["gen"])
+    S = socket_mod()
+    cat = catalog.catalog(g)
+    n_held = (9, 10)[ctx.choice("held", 2)]
+    lat = ctx.real("lat", 0, 1.5)
+    results = {}
+    with Rig(ctx, g) as rig:
+        rig.net.on_connect = lambda net, n: ("accept", lat) if n >= 1 else ("refuse",)
+
+        async def greeting(*, connected):
+            if connected:
+                try:
+                    await rig.sock.send(cat[5][1](0), S.RETRY_CONNECTED)
+                    results["greeting"] = "ok"
+                except Exception as e:  # noqa: BLE001
+                    results["greeting"] = type(e).__name__
+
+        rig.sock.subscribe_on_connection_changed(greeting)
+
+        async def go():
+            for i in range(n_held):
+                try:
+                    await rig.sock.send(cat[3][1](i), S.RetryPolicy(max_retries=1, max_lifetime=30.0))
+                    results[i] = "ok"
+                except Exception as e:  # noqa: BLE001
+                    results[i] = type(e).__name__
+
+        rig.spawn(rig.sock.open_socket())
+        rig.loop.vt_call_at(0.5, lambda: rig.spawn(go()))
+        rig.loop.vt_run(12.25)
+        detail = {"held": n_held, "results": {str(k): v for k, v in results.items()}}
+        ctx.check(all(results.get(i) == "ok" for i in range(n_held)), "sends.accepted", detail=detail)
+        wire = [int(b) for b in (rig.net.conns[0].written() if rig.net.conns else [])]
+        from ref import framing
+        frames = framing.parse_stream(g.n, wire)
+        datas = [bytes(f["data"]) for f in frames]
+        held_ref = [bytes(cat[3][3](i)) for i in range(n_held)]
+        greet_ref = bytes(cat[5][3](0))
+        ctx.observe("frames", len(frames))
+        # every held message exactly once, in acceptance order; the greeting (if it was accepted) once, wherever it falls
+        got_held = [d for d in datas if d != greet_ref]
+        ctx.check(got_held == held_ref, "sends.wire", detail=dict(detail, frames=len(frames), held_on_wire=len(got_held)))
+        ctx.check(datas.count(greet_ref) == (1 if results.get("greeting") == "ok" else 0), "sends.wire", detail=dict(detail, why="greeting", n=datas.count(greet_ref)))
+        ctx.check(len(rig.net.conns) == 1 and not rig.task_failures(), "sends.wire", detail="connection disturbed / task failure")
     for lab in ("counter.step", "counter.wrap", "sends.contiguous"):
         ctx.reach(lab)
 
